@@ -1,7 +1,9 @@
 (* Properties_C12.v — C12: monotonic fitting terminates with the same result under every thread schedule.
    Statements about the transition system Handshake.v (coordinator/worker hand-shake of walk_descents +
    evaluate_descent) with fixed = true, i.e. the code after the `fix:` commit for D7 (the coordinator tests the
-   worker states before it waits).  N = number of worker threads, na = number of trial step lengths,
+   worker states before it waits), and shared_common = false, i.e. after the `fix:` commit for D15 (one cholmod_common per
+   worker, started by the coordinator before the first pthread_create and finished after the last pthread_join).
+   N = number of worker threads, na = number of trial step lengths,
    lt = order of the residuals; all unbounded.  Proofs: C12_Proofs.v. *)
 From Coq Require Import List Arith Bool.
 From PS Require Import Handshake C12_Proofs C12_Termination.
@@ -24,13 +26,31 @@ Theorem C12_no_early_read : forall s j,
   reachable N na lt true s -> coordinator_reading N na s j -> worker_done_with_block N s j.
 Proof. intros s j H. apply no_early_read_inv. apply (inv_reachable N na lt HN); assumption. Qed.
 
-(* race freedom on the modelled shared locations (state[j], alpha[j], the outputs of trial j, x): no two different
-   threads ever have enabled steps with conflicting accesses — on every location except the shared cholmod_common,
-   and on that one too if the workers do not share it (shared_common = false) *)
+(* race freedom on the modelled shared locations (state[j], alpha[j], the outputs of trial j, x, the caller's
+   cholmod_common LCommon, the per-worker commons LWCommon j): no two different threads ever have enabled steps with
+   conflicting accesses.  In the shape of the code after the D15 fix (shared_common = false) this holds on EVERY location,
+   the commons included; in the old shape (shared_common = true: every worker allocates through the caller's common) on every
+   location except LCommon (see C12_refuted_race_common). *)
 Theorem C12_race_free : forall shared_common s t1 t2 l,
   reachable N na lt true s -> (l <> LCommon \/ shared_common = false) ->
   raceb N na lt true shared_common s t1 t2 l = false.
 Proof. intros sc s t1 t2 l H Hl. apply race_free_inv; [exact HN | apply (inv_reachable N na lt HN); assumption | exact Hl]. Qed.
+
+(* the code as it is now (per-worker commons): no race on any location, for every N >= 1 *)
+Theorem C12_race_free_all_locations : forall s t1 t2 l,
+  reachable N na lt true s -> raceb N na lt true false s t1 t2 l = false.
+Proof. intros s t1 t2 l H. apply C12_race_free; [exact H | right; reflexivity]. Qed.
+
+(* who touches which common (D15 fix): worker j only its own commons[j]; and whenever the coordinator touches a per-worker
+   common (cholmod_l_start before the first pthread_create, free_dense + cholmod_l_finish after the last pthread_join) or
+   reads the caller's common, no worker is alive: each one is not yet created or has exited *)
+Theorem C12_common_owner_worker : forall shared_common s j k,
+  acc N na shared_common s (S j) (LWCommon k) <> ANone -> k = j /\ j < N /\ shared_common = false.
+Proof. exact (common_owner_worker N na). Qed.
+Theorem C12_common_owner_coordinator : forall shared_common s l,
+  reachable N na lt true s -> (l = LCommon \/ exists k, l = LWCommon k) -> acc N na shared_common s 0 l <> ANone ->
+  forall j, j < N -> wp s j = WNotCreated \/ wp s j = WExited.
+Proof. intros sc s l H. apply common_owner_coordinator. apply (inv_reachable N na lt HN); assumption. Qed.
 
 (* ---- termination under every schedule ----
    Executions are arbitrary interleavings of thread steps (EStep t) and spurious wake-ups (ESpur t) of threads blocked in
@@ -108,7 +128,8 @@ Theorem C12_refuted_lost_wakeup : exists s,
   reachable 1 2 lt_none false s /\ ~ finished s /\ forall t s', step 1 2 lt_none false s t <> Some s'.
 Proof. exact refuted_lost_wakeup. Qed.
 
-(* D15: with the workers sharing one cholmod_common, two workers of a block race on it (also after the D7 fix) *)
+(* D15, the code as it was before its `fix:` commit (shared_common = true): with the workers sharing the caller's
+   cholmod_common, two workers of a block race on it (also after the D7 fix) *)
 Theorem C12_refuted_race_common : exists s,
   reachable 2 2 lt_none true s /\ raceb 2 2 lt_none true true s 1 2 LCommon = true.
 Proof. exact refuted_race_common. Qed.
@@ -123,6 +144,16 @@ Proof. exact ex_finished_reachable. Qed.
 Example C12_ex_bound : B0 2 3 = 71 /\ Bmax 2 3 = 155 /\ length ex_schedule <= B0 2 3 /\
   exists s, run 2 3 lt_ex true init ex_schedule = Some s /\ finished s /\ Phi 2 3 s = 0.
 Proof. exact ex_bound. Qed.
+(* the per-worker commons are really used in the model: in the very state of C12_refuted_race_common both workers have an
+   enabled step that writes its own common and touches neither the other's nor the caller's; the coordinator's first step
+   writes every per-worker common and reads the caller's *)
+Example C12_ex_commons_used : exists s, reachable 2 2 lt_none true s /\
+    enabledb 2 2 lt_none true s 1 = true /\ enabledb 2 2 lt_none true s 2 = true /\
+    acc 2 2 false s 1 (LWCommon 0) = AWrite /\ acc 2 2 false s 2 (LWCommon 1) = AWrite /\
+    acc 2 2 false s 1 (LWCommon 1) = ANone /\ acc 2 2 false s 2 (LWCommon 0) = ANone /\
+    acc 2 2 false s 1 LCommon = ANone /\ acc 2 2 false s 2 LCommon = ANone /\
+    acc 2 2 false init 0 (LWCommon 0) = AWrite /\ acc 2 2 false init 0 (LWCommon 1) = AWrite /\ acc 2 2 false init 0 LCommon = ARead.
+Proof. exact ex_commons_used. Qed.
 Example C12_ex_reading : exists s,
   reachable 2 3 lt_ex true s /\ coordinator_reading 2 3 s 0 /\ coordinator_reading 2 3 s 1.
 Proof. exact ex_reading_reachable. Qed.
@@ -130,6 +161,9 @@ Proof. exact ex_reading_reachable. Qed.
 Print Assumptions C12_no_deadlock.
 Print Assumptions C12_no_early_read.
 Print Assumptions C12_race_free.
+Print Assumptions C12_race_free_all_locations.
+Print Assumptions C12_common_owner_worker.
+Print Assumptions C12_common_owner_coordinator.
 Print Assumptions C12_deterministic.
 Print Assumptions C12_deterministic_first_good.
 Print Assumptions C12_measure.
